@@ -1054,8 +1054,10 @@ def run(ctx):
     lines = []
     for s in mal:
         for op in ("sort.stack", "sort.pop", "sort.bubble", "sort.quick", "dev.stack", "dev.pop", "dev.bubble",
-                   "able.stack", "able.pop", "able.bubble", "able.quick", "west2", "west3", "ss.fwd", "ss.inv",
+                   "able.stack", "able.pop", "able.bubble", "able.quick", "west2", "west3",
                    "fam.dihedral", "yt", "fam.yt22", "fam.yt32"):
+            # (the Simion-Schmidt maps are left out: they use the entries as indices into 0..n-1, so what they do with
+            # a tuple that is not a permutation of 0..n-1 is an implementation detail the property does not pin)
             lines.append(op + " " + fseq(s))
     lines += ["ss.bad tuple", "ss.bad tupleinv", "ss.bad none", "ss.bad emptytuple", "dgroup.len 1", "dgroup.len 2"]
     ctx.compare("malformed", lines)
